@@ -234,6 +234,12 @@ pub enum MapOp {
     Remove(&'static str),
     RemoveEntry(&'static str),
     EntryOrInsert(&'static str, MV),
+    /// `entry_format(&Key).or_insert_with(|| ..)`: the same law as `entry(k).or_insert(..)` through the other two calls
+    EntryFormatOrInsertWith(&'static str, MV),
+    /// `get_key_value_mut(k)`: writes an integer through the returned reference, decorates the key; returns the key seen
+    GetKeyValueMutWrite(&'static str, i64),
+    /// `key_mut(k)`: decorates the key (must not change what the entry is); returns the key seen
+    KeyMutDecorate(&'static str),
     EntryOccupiedInsert(&'static str, MV),
     EntryOccupiedRemove(&'static str),
     GetOrInsert(&'static str, i64),
@@ -271,6 +277,9 @@ fn map_ops(values: &[MV], with_get_or_insert: bool) -> Vec<MapOp> {
         v.push(MapOp::EntryOccupiedInsert(k, values[0].clone()));
         v.push(MapOp::IndexAssign(k, values[1].clone()));
         v.push(MapOp::TlEntryOrInsert(k, values[0].clone()));
+        v.push(MapOp::EntryFormatOrInsertWith(k, values[1].clone()));
+        v.push(MapOp::GetKeyValueMutWrite(k, 1));
+        v.push(MapOp::KeyMutDecorate(k));
         v.push(MapOp::Remove(k));
         v.push(MapOp::RemoveEntry(k));
         v.push(MapOp::EntryOccupiedRemove(k));
@@ -341,7 +350,19 @@ fn model_step(m: &mut MapModel, op: &MapOp, flex: &mut Vec<String>) -> String {
             }
             _ => "none".into(),
         },
-        MapOp::EntryOrInsert(k, v) | MapOp::TlEntryOrInsert(k, v) => match m_pos(m, k) {
+        MapOp::GetKeyValueMutWrite(k, x) => match m_pos(m, k) {
+            Some(i) if matches!(m[i].1, MV::Int(_)) => {
+                m[i].1 = MV::Int(*x);
+                format!("{}:written", k)
+            }
+            Some(i) if m[i].1.vis() => format!("{}:not-int", k),
+            _ => "none".into(),
+        },
+        MapOp::KeyMutDecorate(k) => match m_pos(m, k) {
+            Some(i) if m[i].1.vis() => k.to_string(),
+            _ => "none".into(),
+        },
+        MapOp::EntryOrInsert(k, v) | MapOp::TlEntryOrInsert(k, v) | MapOp::EntryFormatOrInsertWith(k, v) => match m_pos(m, k) {
             Some(i) if m[i].1.vis() => m[i].1.show(),
             _ => {
                 put(m, k, v.clone(), flex);
@@ -531,6 +552,35 @@ impl Sys for TableSys {
             MapOp::TlEntryOrInsert(k, v) => {
                 let tl: &mut dyn TableLike = t;
                 show_item(tl.entry(k).or_insert(item_of(v)))
+            }
+            MapOp::EntryFormatOrInsertWith(k, v) => show_item(t.entry_format(&Key::new(*k)).or_insert_with(|| item_of(v))),
+            MapOp::GetKeyValueMutWrite(k, x) => match t.get_key_value_mut(k) {
+                Some((mut key, item)) if !item.is_none() => {
+                    // (the decor is touched but left as it is: a changed decor would only multiply the states)
+                    let _ = key.leaf_decor_mut().prefix().is_some();
+                    let seen = key.get().to_string();
+                    if item.is_integer() {
+                        *item = toml_edit::value(*x);
+                        format!("{}:written", seen)
+                    } else {
+                        format!("{}:not-int", seen)
+                    }
+                }
+                _ => "none".into(),
+            },
+            MapOp::KeyMutDecorate(k) => {
+                // (whether the formatting accessor answers for a placeholder's key is left open; asked for entries only)
+                if t.contains_key(k) {
+                    match t.key_mut(k) {
+                        Some(mut key) => {
+                            let _ = key.leaf_decor_mut().suffix().is_some();
+                            key.get().to_string()
+                        }
+                        None => "MISSING-KEY-OF-A-PRESENT-ENTRY".into(),
+                    }
+                } else {
+                    "none".into()
+                }
             }
             MapOp::GetOrInsert(..) => unreachable!(),
             MapOp::EntryOccupiedInsert(k, v) => match t.entry(k) {
@@ -730,6 +780,34 @@ impl Sys for InlineSys {
             MapOp::TlEntryOrInsert(k, v) => {
                 let tl: &mut dyn TableLike = it(item);
                 show_item(tl.entry(k).or_insert(Item::Value(value_of(v))))
+            }
+            MapOp::EntryFormatOrInsertWith(k, v) => show_value(it(item).entry_format(&Key::new(*k)).or_insert_with(|| value_of(v))),
+            MapOp::GetKeyValueMutWrite(k, x) => match it(item).get_key_value_mut(k) {
+                Some((mut key, entry)) if !entry.is_none() => {
+                    // (the decor is touched but left as it is: a changed decor would only multiply the states)
+                    let _ = key.leaf_decor_mut().prefix().is_some();
+                    let seen = key.get().to_string();
+                    if entry.is_integer() {
+                        *entry = toml_edit::value(*x);
+                        format!("{}:written", seen)
+                    } else {
+                        format!("{}:not-int", seen)
+                    }
+                }
+                _ => "none".into(),
+            },
+            MapOp::KeyMutDecorate(k) => {
+                if it(item).contains_key(k) {
+                    match it(item).key_mut(k) {
+                        Some(mut key) => {
+                            let _ = key.leaf_decor_mut().suffix().is_some();
+                            key.get().to_string()
+                        }
+                        None => "MISSING-KEY-OF-A-PRESENT-ENTRY".into(),
+                    }
+                } else {
+                    "none".into()
+                }
             }
             MapOp::GetOrInsert(k, x) => show_value(it(item).get_or_insert(*k, *x)),
             MapOp::EntryOccupiedInsert(k, v) => match it(item).entry(*k) {
